@@ -365,7 +365,12 @@ def run_compose(case):
             return ('exc', type(e).__name__)
     whole = out(lambda: glom(t, Path(p, q)))
     parts = out(lambda: glom(glom(t, p), q))
-    ok = (whole[0] == parts[0]) and (whole[1] is parts[1] if whole[0] == 'ok' else whole[1] == parts[1])
+    def same(a, b):
+        # fetching a method creates a new bound-method object each time: same name on the same owner is the same result
+        if a is not b and hasattr(a, '__self__') and hasattr(b, '__self__'):
+            return getattr(a, '__name__', 0) == getattr(b, '__name__', 1) and a.__self__ is b.__self__
+        return a is b
+    ok = (whole[0] == parts[0]) and (same(whole[1], parts[1]) if whole[0] == 'ok' else whole[1] == parts[1])
     if not ok:
         return R({'expected': 'glom(glom(t,p),q) = %r' % (parts,), 'observed': 'glom(t, Path(p,q)) = %r' % (whole,),
                   'p': repr(p), 'q': repr(q)}, 'compose')
